@@ -140,3 +140,44 @@ pub fn run_deps_case(case: &Case, env: &Env, prop: &str) -> CaseOut {
     let _ = std::env::set_current_dir("/");
     out
 }
+
+
+/// C15 through the real binary: a command that leaves a malformed depfile fails that step with a parse error
+/// naming the depfile; a missing depfile counts as empty.
+pub fn run_bad_depfile_case(case: &Case, env: &Env) -> CaseOut {
+    let dir = env.dir.join("bbm");
+    util::fresh_cwd(&dir);
+    let mut t = Tape::new(&case.main);
+    // (a line starting with a colon is accepted by the parser as an entry with an empty target name: not malformed)
+    let bad = ["out.o: a.h \\\\x b.h", "out.o a.h", "\\\\", "out.o: a.h \\\\"];
+    let which = t.below(bad.len() + 2);
+    let depname = ["out.o.d", "deps/out.d"][t.below(2)];
+    std::fs::write("a.h", "a").unwrap();
+    std::fs::write("in.c", "c").unwrap();
+    std::fs::create_dir_all("deps").unwrap();
+    let write = if which < bad.len() { format!("printf '{}' > {}", bad[which], depname) } else if which == bad.len() { "true".to_string() } else { format!("printf 'out.o: a.h\\n' > {}", depname) };
+    let m = format!("rule cc\n  command = {} ; cp in.c out.o\n  depfile = {}\n  description = CC\nbuild out.o: cc in.c\n", ninja_escape_value(&write), depname);
+    std::fs::write("build.ninja", &m).unwrap();
+    let (code, text) = run_n2(&dir, &["-j", "1"]);
+    let mut out = CaseOut { evals: 1, nontrivial: which < bad.len(), ..Default::default() };
+    if which < bad.len() {
+        if code != Some(1) || !text.contains("failed: CC") {
+            out.viols.push(Viol::new("C15", "bb:malformed-depfile-accepted", format!("the command leaves a malformed depfile ({:?}) but n2 exited {:?}: {:?}", bad[which], code, text)));
+        } else if !text.contains("parse error") || !text.contains(&format!("{}:", depname)) {
+            out.viols.push(Viol::new("C15", "bb:diagnostic", format!("the failure does not carry a parse error naming {}: {:?}", depname, text)));
+        }
+    } else if code != Some(0) {
+        out.viols.push(Viol::new("C15", "bb:valid-or-missing-depfile-rejected", format!("depfile {} but n2 exited {:?}: {:?}", if which == bad.len() { "missing" } else { "well-formed" }, code, text)));
+    } else {
+        let (c2, t2) = run_n2(&dir, &["-j", "1"]);
+        out.evals += 1;
+        if c2 != Some(0) || !t2.contains("no work to do") {
+            out.viols.push(Viol::new("C15", "bb:rebuild", format!("second build: exit {:?}, {:?}", c2, t2)));
+        }
+    }
+    out.classes = vec![if which < bad.len() { "malformed".to_string() } else if which == bad.len() { "missing".to_string() } else { "well-formed".to_string() }];
+    out.fp = fnv_str(&m);
+    out.desc = json!({"manifest": m, "exit": code, "output": text});
+    let _ = std::env::set_current_dir("/");
+    out
+}
